@@ -18,6 +18,13 @@ def handleQuery (s : DState) (toks : List String) : Option Out :=
   match toks with
   | ["oracle", _, slot] => withSlot s slot fun _ => ["oracle ok"]
   | ["bigarena", _, _] => some (s, ["oracle ok"])   -- implementation-vs-oracle only (70 000 terms)
+  | ["clone", a, b] =>   -- `Ontology::clone()`
+    match a.toNat?, b.toNat? with
+    | some a, some b =>
+      match s.slot a with
+      | some o => some (s.setSlot b o, [])
+      | none => some (s, ["noslot"])
+    | _, _ => none
   | ["same", a, b] =>
     match a.toNat?.bind s.slot, b.toNat?.bind s.slot with
     | some oa, some ob => some (s, [if dump oa = dump ob then "same 1" else "same 0"])
